@@ -41,6 +41,7 @@ type ghostInfo struct {
 }
 
 type Exec struct {
+	replayTargets map[string]replayTarget // functions under contract of this run, by ssa name
 	nameOwner map[string]string
 	prog      *ssa.Program
 	pkgs      []*packages.Package
